@@ -184,6 +184,47 @@ class Module:
         return f"<module {self.name}>"
 
 
+def _synthesised_dataclass_init(ci) -> Optional[ast.FunctionDef]:
+    """The `__init__` that `@dataclass` generates, written out (so that a plain class turned into a dataclass - same constructor
+    signature - reads the same): parameters from the annotated fields in order, `self.f = f`, defaults / default factories of
+    `field(init=False, ...)` fields assigned, `__post_init__()` called. None when the class is no dataclass, defines `__init__`
+    itself, switches generation off, or inherits dataclass fields (bases are not merged here)."""
+    if not ci.is_dataclass or "__init__" in ci.methods:
+        return None
+    if any("init=False" in d.replace(" ", "") for d in ci.decorators if d.split("(")[0].endswith("dataclass")):
+        return None
+    params, body = [], []
+    for f in ci.fields:
+        if _is_classvar(f.annotation):
+            continue
+        d = f.default
+        init, default = True, d
+        if isinstance(d, ast.Call) and ast.unparse(d.func).split(".")[-1] == "field":
+            kw = {k.arg: k.value for k in d.keywords if k.arg}
+            init = not (isinstance(kw.get("init"), ast.Constant) and kw["init"].value is False)
+            default = kw.get("default")
+            if default is None and kw.get("default_factory") is not None:
+                default = ast.Call(func=kw["default_factory"], args=[], keywords=[])
+        ann = ast.unparse(f.annotation) if f.annotation is not None else None
+        if init:
+            params.append(f.name + (f": {ann}" if ann else "") + (f" = {ast.unparse(default)}" if default is not None else ""))
+            body.append(f"self.{f.name} = {f.name}")
+        elif default is not None:
+            body.append(f"self.{f.name} = {ast.unparse(default)}")
+    if "__post_init__" in ci.methods:
+        body.append("self.__post_init__()")
+    src = "def __init__(self" + "".join(", " + x for x in params) + "):\n" + "".join("    " + b + "\n" for b in body or ["pass"])
+    try:
+        node = ast.parse(src).body[0]
+    except SyntaxError:
+        return None
+    for n in ast.walk(node):
+        if hasattr(n, "lineno"):
+            n.lineno = ci.node.lineno
+            n.end_lineno = ci.node.lineno
+    return node
+
+
 def _decorator_name(d: ast.expr) -> str:
     try:
         return ast.unparse(d)
@@ -356,6 +397,10 @@ class Program:
                             if isinstance(t, ast.Name):
                                 ci.class_assigns[t.id] = s.value
                 visit_body(stmt.body, ci, ci, parent, prefix + stmt.name + ".")
+                synth = _synthesised_dataclass_init(ci)
+                if synth is not None:
+                    fi = register_function(synth, "__init__", ci, ci, parent, prefix + stmt.name + ".")
+                    ci.methods["__init__"] = fi
             else:
                 # compound statements: descend into nested bodies, register lambdas of the header parts
                 for fname, value in ast.iter_fields(stmt):
